@@ -1,11 +1,12 @@
 /-
   C16 — Generators deliver the structure their parameters promise.
   Property theorems only; helper lemmas live in XgiModel/C16/Lemmas*.lean.
-  All statements are about the functions of XgiModel/C16/Gen.lean and GenRand.lean that the driver runs, for every
+  All statements are about the functions of XgiModel/C16/Gen.lean, GenRand.lean and Net.lean that the driver runs, for every
   `n`, `m`, size list, degree dict and every oracle (gap list / coin list / stub choices / uniform draws / `np.random.choice`
   results) — i.e. all seeds.
 -/
 import XgiModel.C16.LemmasHPPM
+import XgiModel.C16.LemmasNet
 
 namespace Xgi.C16
 
@@ -867,6 +868,271 @@ theorem er_degree_spec (n m : Nat) (p : Rat) (multi : Bool) (gaps : List Nat) (h
 theorem trivial_spec (n : Nat) : (∀ x, x ∈ trivialNodes n ↔ x < n) ∧ (trivialNodes n).Nodup ∧ (trivialNodes n).length = n :=
   ⟨fun x => by simp [trivialNodes], by simp [trivialNodes, List.nodup_range], by simp [trivialNodes]⟩
 
+/-! ### "exactly the requested node set", generator by generator (node lists of XgiModel/C16/Net.lean) -/
+
+/-- `_check_input_args` + `zip(order, ps)`: without `order` the i-th probability belongs to edges of `i + 2` nodes; with
+    `order` (same length, scalars being singletons) to edges of `order[i] + 1` nodes; different lengths: `ValueError` -/
+theorem input_rounds_spec (ps : List Prob) :
+    (∃ rs, inputRounds ps none = .ok rs ∧ rs.map (·.2) = ps ∧ rs.map (·.1) = (List.range ps.length).map (· + 2)) ∧
+    (∀ o : List Nat, o.length = ps.length →
+      ∃ rs, inputRounds ps (some o) = .ok rs ∧ rs.map (·.2) = ps ∧ rs.map (·.1) = o.map (· + 1)) ∧
+    (∀ o : List Nat, o.length ≠ ps.length → inputRounds ps (some o) = .err .value) := by
+  refine ⟨⟨_, rfl, ?_, ?_⟩, ?_, ?_⟩
+  · exact map_snd_zipWith (· + 2) _ ps (by simp)
+  · exact map_fst_zipWith (· + 2) _ ps (by simp)
+  · intro o ho
+    refine ⟨List.zipWith (fun d p => (d + 1, p)) o ps, by simp [inputRounds, ho], ?_, ?_⟩
+    · exact map_snd_zipWith (· + 1) o ps ho
+    · exact map_fst_zipWith (· + 1) o ps ho
+  · intro o ho
+    simp [inputRounds, ho]
+
+/-- `fast_random_hypergraph(n, ps, order)`, every oracle: the node list is exactly `range n` (every generated edge lies
+    within it); the edges are those of `fast_random_spec` for the rounds `_check_input_args` computes -/
+theorem fast_random_nodes (n : Nat) (ps : List Prob) (order : Option (List Nat)) (gaps : List Nat) (net : GNet) (rest : List Nat)
+    (hg : ∀ g ∈ gaps, 1 ≤ g) (h : fastRandomNet n ps order gaps = .ok (net, rest)) :
+    net.nodes = List.range n ∧
+    ∃ rounds, inputRounds ps order = .ok rounds ∧ fastRandom n rounds gaps = some (net.edges, rest) := by
+  unfold fastRandomNet at h
+  split at h
+  · rename_i rounds hr
+    rw [Res.ofOption_ok, netOpt_some] at h
+    obtain ⟨es, hes, rfl⟩ := h
+    refine ⟨build_nodes_eq _ _ _ List.nodup_range ?_ (by simp), rounds, hr, hes⟩
+    intro e he x hx
+    obtain ⟨r, -, -, -, -, hlt⟩ := (fast_random_spec n rounds gaps es rest hg hes).1 e he
+    exact List.mem_range.mpr (hlt x hx)
+  · simp at h
+  · simp at h
+
+/-- `random_hypergraph(n, ps, order)`, every coin sequence: the node list is exactly `range n` -/
+theorem random_hypergraph_nodes (n : Nat) (ps : List Prob) (order : Option (List Nat)) (coins : List Bool) (net : GNet)
+    (rest : List Bool) (h : coinRandomNet n ps order coins = .ok (net, rest)) :
+    net.nodes = List.range n ∧
+    ∃ rounds, inputRounds ps order = .ok rounds ∧ coinRandom n (rounds.map (·.1)) coins = some (net.edges, rest) := by
+  unfold coinRandomNet at h
+  split at h
+  · rename_i rounds hr
+    rw [Res.ofOption_ok, netOpt_some] at h
+    obtain ⟨es, hes, rfl⟩ := h
+    refine ⟨build_nodes_eq _ _ _ List.nodup_range ?_ (by simp), rounds, hr, hes⟩
+    intro e he x hx
+    obtain ⟨s, -, -, -, hlt⟩ := (random_hypergraph_spec n _ coins es rest hes).1 e he
+    exact List.mem_range.mpr (hlt x hx)
+  · simp at h
+  · simp at h
+
+/-- `uniform_erdos_renyi_hypergraph` (both `p_type`s), `uniform_HSBM`, `uniform_HPPM`, every oracle: the node list is
+    exactly `range n` (`n = sum(sizes)` for the block model) -/
+theorem uniform_nodes (n m : Nat) (gaps : List Nat) (net : GNet) (rest : List Nat) (hg : ∀ g ∈ gaps, 1 ≤ g) :
+    (∀ multi p, erdosRenyiNet n m multi p gaps = some (net, rest) → net.nodes = List.range n) ∧
+    (∀ multi p, erdosRenyiDegNet n m p multi gaps = .ok (net, rest) → net.nodes = List.range n) ∧
+    (∀ sizes ps, hsbmNet m sizes ps gaps = some (net, rest) → net.nodes = List.range (sumL sizes)) ∧
+    (∀ k eps rho, hppmNet n m k eps rho gaps = .ok (net, rest) → net.nodes = List.range n) := by
+  refine ⟨?_, ?_, ?_, ?_⟩
+  · intro multi p h
+    rw [erdosRenyiNet, netOpt_some] at h
+    obtain ⟨es, hes, rfl⟩ := h
+    refine build_nodes_eq _ _ _ List.nodup_range ?_ (by simp)
+    intro e he x hx
+    exact List.mem_range.mpr (((erdos_renyi_spec n m multi p gaps es rest hg hes).1 e he).2.2 x hx)
+  · intro multi p h
+    rw [erdosRenyiDegNet, netRes_ok] at h
+    obtain ⟨es, hes, rfl⟩ := h
+    refine build_nodes_eq _ _ _ List.nodup_range ?_ (by simp)
+    intro e he x hx
+    exact List.mem_range.mpr ((((er_degree_spec n m p multi gaps hg).2 es rest hes).1 e he).2.2 x hx)
+  · intro sizes ps h
+    rw [hsbmNet, netOpt_some] at h
+    obtain ⟨es, hes, rfl⟩ := h
+    refine build_nodes_eq _ _ _ List.nodup_range ?_ (by simp)
+    intro e he x hx
+    exact List.mem_range.mpr (((hsbm_spec m sizes ps gaps es rest hg hes).1 e he).2.2 x hx)
+  · intro k eps rho h
+    rw [hppmNet, netRes_ok] at h
+    obtain ⟨es, hes, rfl⟩ := h
+    refine build_nodes_eq _ _ _ List.nodup_range ?_ (by simp)
+    intro e he x hx
+    exact List.mem_range.mpr (((hppm_spec n m k eps rho gaps es rest hg hes).2.2.2.1 e he).2.2 x hx)
+
+/-- `complete_hypergraph(N, …)`: the node list is exactly `range N`, whatever the order options -/
+theorem complete_nodes (n : Nat) :
+    (∀ order, (completeOrderNet n order).nodes = List.range n) ∧
+    (∀ maxOrder singletons, (completeMaxNet n maxOrder singletons).nodes = List.range n) := by
+  constructor
+  · intro order
+    refine build_nodes_eq _ _ _ List.nodup_range ?_ (by simp)
+    intro e he x hx
+    exact List.mem_range.mpr (((complete_order_spec n order e).1.mp he).2.2 x hx)
+  · intro mo s
+    refine build_nodes_eq _ _ _ List.nodup_range ?_ (by simp)
+    intro e he x hx
+    exact List.mem_range.mpr (((complete_max_spec n mo s e).1.mp he).2.2 x hx)
+
+/-- `uniform_hypergraph_configuration_model(k, m)`, every choice oracle: the node list is exactly the keys of `k`, in
+    dict order -/
+theorem config_nodes (k : List (Nat × Nat)) (m : Nat) (bump : List Nat) (choices : List (List Nat)) (net : GNet)
+    (hk : (k.map (·.1)).Nodup) (h : configNet k m bump choices = some net) :
+    net.nodes = k.map (·.1) ∧ configModel k m bump choices = some net.edges := by
+  unfold configNet at h
+  cases hc : configModel k m bump choices with
+  | none => rw [hc] at h; simp at h
+  | some es =>
+    rw [hc] at h
+    simp only [Option.map_some, Option.some.injEq] at h
+    subst h
+    refine ⟨build_nodes_eq _ _ _ hk ?_ (by simp), rfl⟩
+    intro e he x hx
+    exact ((config_degree_le k m bump choices es hk hc).2.2 e he).2.2 x hx
+
+/-- simplicial generators: `random_simplicial_complex(N, ps)`, `flag_complex` / `random_flag_complex` (all cliques or
+    promoted cliques) on a graph with nodes `range n` — the node list is exactly `range n` -/
+theorem simplicial_nodes (n : Nat) :
+    (∀ sizes coins net rest, randomSCNet n sizes coins = some (net, rest) → net.nodes = List.range n) ∧
+    (∀ adj maxOrder, (flagComplexNet n adj maxOrder).nodes = List.range n) ∧
+    (∀ adj maxOrder picked net, flagPromotedNet n adj maxOrder picked = some net → net.nodes = List.range n) := by
+  refine ⟨?_, ?_, ?_⟩
+  · intro sizes coins net rest h
+    rw [randomSCNet, netOpt_some] at h
+    obtain ⟨K, hK, rfl⟩ := h
+    refine build_nodes_eq _ _ _ List.nodup_range ?_ (by simp)
+    intro e he x hx
+    exact List.mem_range.mpr (((random_sc_spec n sizes coins K rest hK).2.2 e he).2.2 x hx)
+  · intro adj mo
+    refine build_nodes_eq _ _ _ List.nodup_range ?_ (by simp)
+    intro e he x hx
+    exact List.mem_range.mpr (((flag_complex_spec n adj mo e).1.mp he).2.1.2 x hx)
+  · intro adj mo picked net h
+    unfold flagPromotedNet at h
+    cases hc : flagPromoted n adj mo picked with
+    | none => rw [hc] at h; simp at h
+    | some K =>
+      rw [hc] at h
+      simp only [Option.map_some, Option.some.injEq] at h
+      subst h
+      refine build_nodes_eq _ _ _ List.nodup_range ?_ (by simp)
+      intro e he x hx
+      exact List.mem_range.mpr (((flag_promoted_spec n adj mo picked K hc).2.2.2.1 e he).2.1.2 x hx)
+
+/-- `flag_complex(G, max_order=None)` (all faces of the maximal cliques with at least two nodes): taking `maxOrder = n`
+    loses nothing — every clique of a graph on `range n` with at least two nodes is a simplex, of whatever size -/
+theorem flag_complex_unbounded (n : Nat) (adj : Nat → Nat → Bool) (e : List Nat) :
+    e ∈ flagComplex n adj n ↔
+      2 ≤ e.length ∧ (e.Pairwise (· < ·) ∧ ∀ x ∈ e, x < n) ∧ e.Pairwise (fun a b => adj a b = true) := by
+  rw [(flag_complex_spec n adj n e).1]
+  constructor
+  · rintro ⟨⟨h1, -⟩, h2, h3⟩; exact ⟨h1, h2, h3⟩
+  · rintro ⟨h1, h2, h3⟩
+    have := length_le_of_increasing h2.1 h2.2
+    exact ⟨⟨h1, by omega⟩, h2, h3⟩
+
+/-- `ring_lattice(n, d, k, l)` (`Hypergraph(edges)` first, `add_nodes_from(range(n))` afterwards) and
+    `watts_strogatz_hypergraph` built on it: the node list is a rearrangement of `range n` — each label `< n` once,
+    nothing else -/
+theorem lattice_nodes (n d k l : Nat) :
+    ((ringLatticeNet n d k l).nodes.Nodup ∧ ∀ x, x ∈ (ringLatticeNet n d k l).nodes ↔ x < n) ∧
+    (∀ coins choices net, 1 ≤ d → wattsStrogatzNet n d k l coins choices = .ok net →
+      (net.nodes.Nodup ∧ ∀ x, x ∈ net.nodes ↔ x < n) ∧ wattsStrogatz n d k l coins choices = .ok net.edges) := by
+  have hl : (ringLatticeNet n d k l).nodes.Nodup ∧ ∀ x, x ∈ (ringLatticeNet n d k l).nodes ↔ x < n := by
+    refine ⟨nodup_build_nodes _ _ _, ?_⟩
+    intro x
+    rw [ringLatticeNet, mem_build_nodes]
+    constructor
+    · rintro (h | ⟨e, he, hx⟩ | h)
+      · simp at h
+      · exact (ringLattice_edge n d k l e he).2 x hx
+      · exact List.mem_range.mp h
+    · intro h; exact Or.inr (Or.inr (List.mem_range.mpr h))
+  refine ⟨hl, ?_⟩
+  intro coins choices net hd h
+  unfold wattsStrogatzNet at h
+  split at h
+  · rename_i es hes
+    simp only [Res.ok.injEq] at h
+    subst h
+    refine ⟨⟨nodup_addEdgesNodes _ _ hl.1, ?_⟩, hes⟩
+    intro x
+    rw [mem_addEdgesNodes, hl.2]
+    constructor
+    · rintro (h | ⟨e, he, hx⟩)
+      · exact h
+      · exact (watts_strogatz_spec n d k l coins choices es hd hes).2.1 e he x hx
+    · intro h; exact Or.inl h
+  · simp at h
+  · simp at h
+
+/-- `sunflower(l, c, m)`, `c ≤ m` (nodes arise only as petal members): with at least one petal the node list is a
+    rearrangement of `range (c + l·(m - c))`; without petals there is no node -/
+theorem sunflower_nodes (l c m : Nat) (hm : c ≤ m) :
+    (sunflowerNet l c m).nodes.Nodup ∧ (1 ≤ l → ∀ x, x ∈ (sunflowerNet l c m).nodes ↔ x < c + l * (m - c)) ∧
+    (l = 0 → (sunflowerNet l c m).nodes = []) := by
+  refine ⟨nodup_build_nodes _ _ _, ?_, ?_⟩
+  · intro hl x
+    rw [sunflowerNet, mem_build_nodes]
+    constructor
+    · rintro (h | ⟨e, he, hx⟩ | h)
+      · simp at h
+      · exact ((sunflower_spec l c m hm).2.1 e he).2.2.2 x hx
+      · simp at h
+    · intro hx
+      refine Or.inr (Or.inl ?_)
+      by_cases hc : x < c
+      · refine ⟨List.range c ++ (List.range (m - c)).map (fun i => c + 0 * (m - c) + i), ?_, by simp [hc]⟩
+        rw [mem_sunflower]; exact ⟨0, by omega, rfl⟩
+      · have hmc : 0 < m - c := by
+          rcases Nat.eq_zero_or_pos (m - c) with h0 | h0
+          · rw [h0] at hx; omega
+          · exact h0
+        refine ⟨List.range c ++ (List.range (m - c)).map (fun i => c + ((x - c) / (m - c)) * (m - c) + i), ?_, ?_⟩
+        · rw [mem_sunflower]
+          refine ⟨(x - c) / (m - c), ?_, rfl⟩
+          rw [Nat.div_lt_iff_lt_mul hmc]; omega
+        · rw [List.mem_append]; right
+          rw [List.mem_map]
+          refine ⟨(x - c) % (m - c), List.mem_range.mpr (Nat.mod_lt _ hmc), ?_⟩
+          have := Nat.div_add_mod (x - c) (m - c)
+          rw [Nat.mul_comm] at this
+          omega
+  · rintro rfl
+    simp [sunflowerNet, sunflower, build, addNodes, addEdgesNodes]
+
+/-- `star_clique(n_star, n_clique, d_max)`, `n_star, n_clique ≥ 1`: the node list is exactly `range (n_star + n_clique)` -/
+theorem star_clique_nodes (nStar nClique dMax : Nat) (hs : 1 ≤ nStar) (hc : 1 ≤ nClique) :
+    (starCliqueNet nStar nClique dMax).nodes = List.range (nStar + nClique) := by
+  refine build_nodes_eq _ _ _ List.nodup_range ?_ (by simp)
+  intro e he x hx
+  rw [List.mem_range]
+  rcases ((star_clique_spec nStar nClique dMax hs).1 e).mp he with ⟨i, h1, h2, rfl⟩ | rfl | ⟨-, -, h3⟩
+  · simp at hx; omega
+  · simp at hx; omega
+  · exact (h3 x hx).2
+
+/-- `chung_lu_hypergraph` / `dcsbm_hypergraph` with distinct keys, whatever the draws: the node list is exactly the keys
+    of `k1` ordered by non-increasing degree (`degree_sorted_labels`: a rearrangement of the keys) — the
+    `add_node_to_edge` calls never introduce another node -/
+theorem bipartite_nodes (k1 k2 : List (Nat × Nat)) (gaps : List Nat) (rs : List Rat) (pairs : List (Nat × Nat)) (g : List Nat)
+    (r : List Rat) (hk1 : (k1.map (·.1)).Nodup) (hk2 : (k2.map (·.1)).Nodup) (hr : ∀ x ∈ rs, 0 ≤ x) :
+    (chungLu k1 k2 gaps rs = .ok (pairs, g, r) → bipNodes k1 pairs = (sortByDeg k1).map (·.1)) ∧
+    (∀ g1 g2 omega, dcsbm k1 k2 g1 g2 omega gaps rs = .ok (pairs, g, r) → bipNodes k1 pairs = (sortByDeg k1).map (·.1)) := by
+  have key : (∀ p ∈ pairs, p.2 ∈ k1.map (·.1)) → bipNodes k1 pairs = (sortByDeg k1).map (·.1) := by
+    intro hp
+    unfold bipNodes
+    rw [addNodes_nil_of_nodup _ (nodup_keys_sortByDeg k1 hk1)]
+    apply addNodes_of_subset
+    intro x hx
+    rw [List.mem_map] at hx
+    obtain ⟨p, hp', rfl⟩ := hx
+    exact ((sortByDeg_perm k1).map _).mem_iff.mpr (hp p hp')
+  constructor
+  · intro h
+    exact key (fun p hp => ((chung_lu_spec k1 k2 gaps rs pairs g r hk1 hk2 hr h).2.2.1 p hp).1)
+  · intro g1 g2 omega h
+    exact key (fun p hp => ((dcsbm_spec k1 k2 g1 g2 omega gaps rs pairs g r hk1 hk2 hr h).2.2.1 p hp).1)
+
+/-- `trivial_hypergraph(n)` as a network: nodes `range n`, no edge -/
+theorem trivial_net (n : Nat) : (trivialNet n).nodes = List.range n ∧ (trivialNet n).edges = [] :=
+  ⟨build_nodes_eq _ _ _ List.nodup_range (by simp) (by simp), rfl⟩
+
 /-! ### non-vacuity -/
 
 example : (List.range (Nat.choose 5 3)).map (indexToEdgeComb 5 3) = (combinations 5 3).map some := comb_decode 5 3
@@ -909,5 +1175,17 @@ example : hppm 4 2 2 (3/2) (1/2) [] = .err .xgi := by decide +kernel
 example : erdosRenyiDeg 4 2 (3/2) false [2, 3, 9] = .ok ([[0, 2], [1, 3]], []) := by decide +kernel
 example : erdosRenyiDeg 4 2 4 false [2, 3, 9] = .err .xgi := by decide +kernel
 example : erDegreeQ 4 2 3 false = .ok (.q 1) := by decide +kernel
+-- networks: node lists as the generators build them
+example : inputRounds [.mid, .one] none = .ok [(2, .mid), (3, .one)] := by decide
+example : inputRounds [.mid] (some [3]) = .ok [(4, .mid)] := by decide
+example : inputRounds [.mid] (some [3, 1]) = .err .value := by decide
+example : fastRandomNet 4 [.mid] (some [1]) [2, 3, 9] = .ok (⟨[0, 1, 2, 3], [[0, 2], [1, 3]]⟩, []) := by decide
+example : (ringLatticeNet 6 3 2 1).nodes = [0, 2, 3, 1, 4, 5] := by decide
+example : (sunflowerNet 2 1 3).nodes = [0, 1, 2, 3, 4] := by decide
+example : (sunflowerNet 0 1 3).nodes = [] := by decide
+example : (starCliqueNet 2 3 1).nodes = [0, 1, 2, 3, 4] := by decide
+example : (flagComplexNet 4 (fun a b => (a, b) ≠ (2, 3)) 4).edges =
+    [[0, 1], [0, 2], [0, 3], [1, 2], [1, 3], [0, 1, 2], [0, 1, 3]] := by decide
+example : bipNodes [(0, 1), (1, 3), (2, 1)] [(8, 0), (7, 1)] = [1, 0, 2] := by decide
 
 end Xgi.C16
